@@ -1909,6 +1909,18 @@ func (p *partition) Marshal() []byte {
 	return data
 }
 
+// snapshotProto returns a copy of the partition's protobuf taken under the
+// partition mutex. It is used for FSM snapshots, which are serialized by
+// Persist concurrently with subsequent calls to Apply.
+func (p *partition) snapshotProto() *proto.Partition {
+	p.mu.RLock()
+	defer p.mu.RUnlock()
+	snapshot := *p.Partition
+	snapshot.Replicas = append([]string(nil), p.Replicas...)
+	snapshot.Isr = append([]string(nil), p.Isr...)
+	return &snapshot
+}
+
 // ISRSize returns the current number of replicas in the in-sync replicas set.
 func (p *partition) ISRSize() int {
 	p.mu.RLock()
